@@ -158,6 +158,16 @@ def cases(tier: str, rng: random.Random) -> List[Case]:
     for x_ in (G.NONE, G.I(1), G.S("s")):
         for m_ in ("sync", "async"):
             out.append(std_case(("OptionalV", ("NoneV", Some(("CoUser", N(2)))), ("AlwaysValid",)), x_, m_, tag="a:trailing-any"))
+    # a recursive-definition wrapper hands a failure through as it is - also when its target changed the value first
+    LSTRP = ("Scalar", ("KStr",), None, [("Strip",)], [("PMinLength", 3)], [])
+    LDEC = ("Scalar", ("KDecimal",), Some(("CoDecimal",)), [], [("PMin", G.D10, True)], [])
+    for tgt, xs_ in ((LSTRP, [G.S("  a  "), G.S(" abc "), G.I(1)]), (LDEC, [G.S("0.5"), G.I(0), G.S("7")]),
+                     (("ListV", LSTRP, [], [], Some(("CoUser", N(3)))), [("VTuple", [G.S(" a ")]), ("VList", [G.S(" abcd ")])])):
+        for x_ in xs_:
+            for m_ in ("sync", "async"):
+                out.append(std_case(("LazyV", N(0), False), x_, m_, lazy=[tgt], tag="a:lazy-failure"))
+                out.append(std_case(("ListV", ("LazyV", N(0), False), [], [], None), ("VList", [x_]), m_, lazy=[tgt], tag="a:lazy-failure"))
+                out.append(std_case(("OptionalV", ("NoneV", None), ("LazyV", N(0), True)), x_, m_, lazy=[tgt], tag="a:lazy-failure"))
     # optionals whose none_validator is the user's own
     for v_, x_ in G.custom_none_cases():
         for m_ in ("sync", "async"):
